@@ -2,21 +2,32 @@
 proxy/core/event/dispatcher.py (the REAL EventDispatcher.handle_event driven over
 real multiprocessing.Pipe() channels), and the property oracle.
 
-A case is {'ops': 's0.0 p1 b0 u0 …', 'n': <number of channels>, 'duplex': 0|1}.
+A case is {'ops': 's0.0 p1 b0 u0 …', 'n': <number of channels>, 'duplex': 0|1, 'q': 0|1}.
+q=0: every s/u/p token is one event dict handed straight to handle_event.
+q=1: s/u/p tokens go through the REAL EventQueue (proxy/core/event/queue.py) built over a plain
+     queue.Queue(): subscribe(sub_id, channel) / unsubscribe(sub_id) / publish(request_id, event_name,
+     event_payload, publisher_id); they stay queued (a burst) until a flush token `f` (or the end of the
+     history), at which the dispatcher consumes them with run_once() per queued item.  Reader-side tokens act
+     at once.  The queue layer has to be transparent and FIFO: the history the model and the oracle see is the
+     linearisation `effective()` (queued operations take effect, in order, at the flush).  Every received
+     published event is also checked field by field against what was published (request_id, event_name,
+     event_payload, publisher_id, process_id, thread_id, float timestamp).
 Tokens:  s<id>.<ch> SUBSCRIBE event for sub id <id> carrying the sending end of channel <ch>
          u<id>      UNSUBSCRIBE event
          p<e>       published event number <e> (event_name = one of the 7 non-protocol names, payload {'n': e})
          r<ch>      the reader of <ch> reads everything readable now
          b<ch>      the reader of <ch> drains its channel, then closes its end   (breakage, nothing unread)
          B<ch>      the reader of <ch> closes its end with whatever is unread pending (breakage)
+         f          (q=1) the dispatcher consumes everything queued so far
 After the history every surviving reader reads what is left.  Observables: the
 dispatcher's subscriber dict (ids in order, with their channel), the exception
 that escaped handle_event (the run stops there, like EventDispatcher.run()),
 per channel the messages its reader received, and `$` when a surviving reader
 saw EOF (the dispatcher closed its end).
 """
+import os
+import queue
 import logging
-import itertools
 import threading
 import multiprocessing
 
@@ -27,12 +38,16 @@ THEOREMS = [
     'Px.Disp.C18_no_closed_send', 'Px.Disp.C18_general', 'Px.Disp.C18_shape',
 ]
 EXH_LEN = 6
+EXH_LEN_Q = 5
 RULE = ('history of subscribe/unsubscribe/publish/reader-read/reader-close operations run on the real '
-        'EventDispatcher.handle_event over real multiprocessing.Pipe channels and on the model; thorough = ALL '
-        'fresh-channel histories of length <= %d over sub ids {0,1,2} (unsub also of unknown id 9; breakage '
-        'of every allocated or next-to-be-allocated channel, drained and with unread data) plus random longer '
-        'ones; distinct by canonical JSON; non-trivial = every sub uses a fresh channel (the property '
-        'quantifier) and the history has at least one subscribe and one publish' % EXH_LEN)
+        'EventDispatcher over real multiprocessing.Pipe channels and on the model, either handing event dicts to '
+        'handle_event or (q=1) through the real EventQueue.subscribe/unsubscribe/publish over a queue.Queue with '
+        'bursts consumed by run_once; thorough = ALL fresh-channel histories of length <= %d over sub ids {0,1,2} '
+        '(unsub also of unknown id 9; breakage of every allocated or next-to-be-allocated channel, drained and '
+        'with unread data) handed to handle_event, ALL such histories of length <= %d through the EventQueue under '
+        'two schedules (flush after every operation; one burst consumed at the end), plus random longer ones with '
+        'random flush points; distinct by canonical JSON; non-trivial = every sub uses a fresh channel (the '
+        'property quantifier) and the history has at least one subscribe and one publish' % (EXH_LEN, EXH_LEN_Q))
 ASSUMPTIONS = [
     'every subscriber brings its own new Pipe (EventSubscriber._start_relay_thread); histories that reuse a '
     'channel are run for model/code agreement only (there a send on a handle the dispatcher closed raises '
@@ -41,27 +56,63 @@ ASSUMPTIONS = [
     'this Linux for socketpair and os.pipe channels, with and without unread data); other OSErrors '
     '(e.g. ConnectionResetError on other platforms), pickling errors of the event and a send blocking on a full '
     'pipe buffer are not modelled',
-    'events reach handle_event one at a time in publication order (multiprocessing queue FIFO, single consumer)',
+    'the container under EventQueue is FIFO with a single consumer and snapshots an item when it is put '
+    '(multiprocessing/manager queues pickle on put); the harness uses queue.Queue, which keeps the very object, '
+    'so an envelope mutated after put() is seen mutated — stricter than production',
 ]
 EXHAUSTIVE = {'thorough': True}
-EXPLANATION = ('thorough enumerates the whole space named in the rule up to length %d; quick is a seeded '
-               'sample of it plus random longer and channel-reusing histories' % EXH_LEN)
+EXPLANATION = ('thorough enumerates the whole space named in the rule (length <= %d direct, <= %d through the '
+               'EventQueue under both schedules); quick is a seeded sample of it plus random longer and '
+               'channel-reusing histories' % (EXH_LEN, EXH_LEN_Q))
 
 logging.getLogger('proxy.core.event.dispatcher').setLevel(logging.CRITICAL + 1)
 
 UNKNOWN_ID = 9
 
 
-def parse(case):
+def raw(case):
+    """the tokens as written (with flush tokens)"""
     out = []
     for t in case['ops'].split():
         k, rest = t[0], t[1:]
         if k == 's':
             a, b = rest.split('.')
             out.append(('s', int(a), int(b)))
+        elif k == 'f':
+            out.append(('f',))
         else:
             out.append((k, int(rest)))
     return out
+
+
+def effective(ops, q):
+    """the history as the dispatcher and the readers live it: with the EventQueue in between, queued
+    operations take effect, in queue order, when the dispatcher consumes them"""
+    if not q:
+        return [o for o in ops if o[0] != 'f']
+    out, pending = [], []
+    for o in ops:
+        if o[0] in 'sup':
+            pending.append(o)
+        elif o[0] == 'f':
+            out += pending
+            pending = []
+        else:
+            out.append(o)
+    return out + pending
+
+
+def parse(case):
+    return effective(raw(case), case.get('q', 0))
+
+
+def _tokstr(o):
+    return 's%d.%d' % (o[1], o[2]) if o[0] == 's' else '%s%d' % (o[0], o[1])
+
+
+def _published(e):
+    """arguments of EventQueue.publish for published event number e"""
+    return 'r%d' % e, _ev_name(e), {'n': e}, (None if e % 3 == 0 else 'pub%d' % (e % 3))
 
 
 def _ev_name(e):
@@ -84,7 +135,15 @@ def _tok(m):
     try:
         e = m['event_payload']['n']
         if m == {'event_name': _ev_name(e), 'event_payload': {'n': e}}:
-            return str(e)
+            return str(e)                          # handed to handle_event as is (q=0)
+        rid, name, payload, pub = _published(e)
+        if set(m) == {'process_id', 'thread_id', 'event_timestamp', 'request_id', 'event_name',
+                      'event_payload', 'publisher_id'} \
+                and m['request_id'] == rid and m['event_name'] == name and m['event_payload'] == payload \
+                and m['publisher_id'] == pub and m['process_id'] == os.getpid() \
+                and m['thread_id'] == threading.get_ident() and isinstance(m['event_timestamp'], float):
+            return str(e)                          # the envelope EventQueue.publish builds (q=1)
+        return 'BAD%d' % e
     except Exception:
         pass
     return 'BAD'
@@ -92,10 +151,12 @@ def _tok(m):
 
 def execute(case):
     """Run the history on the real dispatcher.  Returns (subs, crash, seen, eof, dead)."""
-    from proxy.core.event import EventDispatcher, eventNames
+    from proxy.core.event import EventDispatcher, EventQueue, eventNames
 
     class _Q:
         queue = None
+    via_queue = bool(case.get('q', 0))
+    eq = EventQueue(queue.Queue()) if via_queue else _Q()
     n = case['n']
     pipes = [multiprocessing.Pipe(bool(case.get('duplex', 1))) for _ in range(n)]
     readers = [p[0] for p in pipes]
@@ -104,7 +165,7 @@ def execute(case):
     eof = [False] * n
     dead = [False] * n
     crash = None
-    d = EventDispatcher(shutdown=threading.Event(), event_queue=_Q())   # type: ignore
+    d = EventDispatcher(shutdown=threading.Event(), event_queue=eq)   # type: ignore
 
     def read(c):
         if dead[c] or eof[c]:
@@ -119,9 +180,32 @@ def execute(case):
                 eof[c] = True
                 return
 
+    def flush():
+        """the dispatcher loop body, once per queued item; an escaping exception ends the loop (run())"""
+        while not eq.queue.empty():
+            try:
+                d.run_once()
+            except Exception as e:
+                return type(e).__name__
+        return None
+
     try:
-        for op in parse(case):
+        for op in raw(case):
             k = op[0]
+            if via_queue and k in 'supf':
+                if k == 's':
+                    eq.subscribe(str(op[1]), senders[op[2]])
+                elif k == 'u':
+                    eq.unsubscribe(str(op[1]))
+                elif k == 'p':
+                    eq.publish(*_published(op[1]))
+                else:
+                    crash = flush()
+                    if crash:
+                        break
+                continue
+            if k == 'f':
+                continue
             if k == 's':
                 ev = {'event_name': eventNames.SUBSCRIBE,
                       'event_payload': {'sub_id': str(op[1]), 'conn': senders[op[2]]}}
@@ -144,6 +228,8 @@ def execute(case):
             except Exception as e:     # escaped the dispatcher: run() would stop here
                 crash = type(e).__name__
                 break
+        if via_queue and not crash:
+            crash = flush()
         for c in range(n):
             read(c)
         subs = []
@@ -168,7 +254,7 @@ def impl(case):
 
 
 def model_lines(case):
-    return ['disp %d %s' % (case['n'], case['ops'])]
+    return ['disp %d %s' % (case['n'], ' '.join(_tokstr(o) for o in parse(case)))]
 
 
 def is_fresh(ops):
@@ -237,14 +323,19 @@ def oracle(case):
 
 # ---------------------------------------------------------------- generators
 
-def _case(toks, duplex=1):
+def _case(toks, duplex=1, q=0):
     n = 0
     for t in toks:
+        if t == 'f':
+            continue
         if t[0] == 's':
             n = max(n, int(t.split('.')[1]) + 1)
         elif t[0] in 'rbB':
             n = max(n, int(t[1:]) + 1)
-    return {'ops': ' '.join(toks), 'n': max(n, 1), 'duplex': duplex}
+    c = {'ops': ' '.join(toks), 'n': max(n, 1), 'duplex': duplex}
+    if q:
+        c['q'] = 1
+    return c
 
 
 def corpus():
